@@ -95,7 +95,7 @@ theorem fold_sim : ∀ (bs : List (K × K)) {h h' : Hist K}, Coherent h → Inv 
 theorem add_toR {h t h' : Hist K} (hok : add h t = .ok h') (ht : t.min = none ↔ t.max = none) :
     ∃ m, merge h t.bins = .ok m ∧
       h'.toR = { m.toR with min := optMin m.min t.min, max := optMax m.max t.max } := by
-  unfold add at hok
+  rw [add_def] at hok
   obtain ⟨m, hm, hok⟩ := bind_eq_ok hok
   refine ⟨m, hm, ?_⟩
   split at hok
@@ -115,7 +115,7 @@ theorem bulk_toR {h h' : Hist K} {pairs : List (K × K)} {lo hi : K} (hok : bulk
     ∃ m, (pairs.filter (fun p => decide (0 < p.2))).foldlM (fun acc b => update acc b.1 b.2) h = .ok m ∧
       ((m.min = none ↔ m.max = none) →
         h'.toR = { m.toR with min := some (minO m.min lo), max := some (maxO m.max hi) }) := by
-  unfold bulk at hok
+  rw [bulk_def] at hok
   obtain ⟨m, hm, hok⟩ := bind_eq_ok hok
   refine ⟨m, hm, ?_⟩
   intro hiff
@@ -124,17 +124,12 @@ theorem bulk_toR {h h' : Hist K} {pairs : List (K × K)} {lo hi : K} (hok : bulk
     simp only [Except.ok.injEq] at hok
     subst hok
     simp only [Hist.toR, ha, hb, minO, maxO]
-  · rename_i hno
+  · rename_i hmn
     simp only [Except.ok.injEq] at hok
     subst hok
-    cases hmn : m.min with
-    | none =>
-      rw [hiff.mp hmn]
-      simp only [Hist.toR, minO, maxO]
-    | some a =>
-      cases hmx : m.max with
-      | none => rw [hiff.mpr hmx] at hmn; cases hmn
-      | some b => exact absurd hmx (hno a b hmn)
+    rw [hmn, hiff.mp hmn]
+    simp only [Hist.toR, minO, maxO]
+  · simp at hok
 
 /-- The facts of a sum from the facts of its operands and of the merged state (the reasoning of
 `built_facts`, for any state `M` with the properties of `mergeRef s t.bins`). -/
@@ -276,7 +271,7 @@ theorem fledger_facts {h : Hist K} {L : List (K × K)} {B : List K} (hb : FLedge
     unfold Distogram.merge at hm
     obtain ⟨c2, i2, o2, p2, m2, w2, mn2, mx2⟩ := fold_facts t.bins B1 sc si s1 t1 smin smax hm
     have hcoh : Coherent h' := by
-      unfold Distogram.add Distogram.merge at hok
+      rw [add_def] at hok; unfold Distogram.merge at hok
       obtain ⟨m', hm', hok⟩ := bind_eq_ok hok
       rw [hm] at hm'
       simp only [Except.ok.injEq] at hm'
@@ -300,7 +295,7 @@ theorem fledger_facts {h : Hist K} {L : List (K × K)} {B : List K} (hb : FLedge
     obtain ⟨c2, i2, o2, p2, m2, w2, mn2, mx2⟩ := fold_facts _ B sc si s1 f1 smin smax hm
     have e := e (isMinMax_none mn2 mx2)
     have hcoh : Coherent h' := by
-      unfold Distogram.bulk at hok
+      rw [bulk_def] at hok
       obtain ⟨m', hm', hok⟩ := bind_eq_ok hok
       rw [hm] at hm'
       simp only [Except.ok.injEq] at hm'
@@ -308,6 +303,7 @@ theorem fledger_facts {h : Hist K} {L : List (K × K)} {B : List K} (hb : FLedge
       split at hok
       · simp only [Except.ok.injEq] at hok; subst hok; exact fun d hd => c2 d hd
       · simp only [Except.ok.injEq] at hok; subst hok; exact fun d hd => c2 d hd
+      · simp at hok
     obtain ⟨ai, am, aw, amin, amax⟩ := bulk_facts (M := m.toR) (B := B) (L := L) hlh fin sm sw i2 m2 w2 mn2 mx2
     have eb : h'.bins = m.bins := congrArg RState.bins e
     refine ⟨hcoh, by rw [e]; exact ai, by rw [eb]; exact o2, ?_, ?_, ?_, ?_⟩
